@@ -6,28 +6,44 @@ import (
 	"github.com/ElrondNetwork/elrond-go/hashing/keccak"
 )
 
-
+// No false negative: arbitrary pre-state of the filter, symbolic key, hashers modelled as injective
+// functions with unknown values: after Add(k), MayContain(k); also after adding further keys.
 func Verif_C31_noFalseNegative() {
-	b, err := NewFilter(4, []hashing.Hasher{keccak.NewKeccak(), fnv.NewFnv()})
+	size := verifParam("size")
+	b, err := NewFilter(uint(size), []hashing.Hasher{keccak.NewKeccak(), fnv.NewFnv()})
 	verifAssert(err == nil, "filter created")
-	pre := verifBytes("pre", 4)
+	pre := verifBytes("pre", size)
 	copy(b.filter, pre) // arbitrary pre-state
 	k := verifBytes("k", 2)
 	b.Add(k)
 	verifAssert(b.MayContain(k), "added key is reported as possibly contained")
+	k2 := verifBytes("k2", 1)
+	b.Add(k2)
+	verifAssert(b.MayContain(k), "key still reported after adding another key")
+	verifAssert(b.MayContain(k2), "second key reported")
 	verifReach("end")
 }
 
+// Symbolic lockset: every operation is run once from the same filter; two accesses of different
+// operations that can touch the same byte (index equality decided by the solver), one of them a
+// write, with no common lock held, are a race.
 func Verif_C31_lockset() {
 	b, _ := NewFilter(4, []hashing.Hasher{keccak.NewKeccak(), fnv.NewFnv()})
 	verifRaceWatch(b)
 	k1 := verifBytes("k1", 1)
 	k2 := verifBytes("k2", 1)
+	k3 := verifBytes("k3", 1)
 	verifRaceBegin("Add")
 	b.Add(k1)
 	verifRaceEnd()
 	verifRaceBegin("MayContain")
 	_ = b.MayContain(k2)
+	verifRaceEnd()
+	verifRaceBegin("Add#2")
+	b.Add(k3)
+	verifRaceEnd()
+	verifRaceBegin("Clear")
+	b.Clear()
 	verifRaceEnd()
 	verifRaceCheck()
 	verifReach("end")
